@@ -59,7 +59,7 @@ func buildPlonk(c *vh.Check, kind string) *plonkFix {
 	f := &plonkFix{kind: kind}
 	var srs, srsL *kzg.SRS
 	for v := 0; v < 2; v++ {
-		ccs, err := frontend.Compile(innerField, scs.NewBuilder, &innerCircuit{variant: v, commit: kind == "commit"})
+		ccs, err := frontend.Compile(innerField, scs.NewBuilder, &innerCircuit{variant: v, commit: kind != "nocommit", commit2: kind == "commit2"})
 		if err != nil {
 			c.Fatal("compile inner plonk circuit: %v", err)
 		}
